@@ -220,7 +220,32 @@ pub fn run(ctx: &Ctx) -> i32 {
                 }
             }
         }
+        let mut turn = 0u64;
         while !ctx.out_of_time() {
+            turn += 1;
+            if turn % 2 == 0 {
+                // general generated programs (all constructs, zero-sized return types included): the
+                // structural predicates must hold for every compiled circuit
+                let profile = *rng.pick(&[crate::model::gen::Profile::Mixed, crate::model::gen::Profile::MutationHeavy, crate::model::gen::Profile::PanicHeavy]);
+                let mut cfg = crate::model::gen::GenCfg::new(profile);
+                cfg.max_depth = 2 + rng.below(2) as u32;
+                cfg.max_stmts = 2 + rng.usize_below(5);
+                cfg.max_nodes = 40 + rng.usize_below(100);
+                cfg.max_cost = 800;
+                let (_prog, pr, _) = crate::model::exec::generate(&mut rng, cfg, crate::model::print::Layout::Compact);
+                for dedup in [true, false] {
+                    if let CompileOutcome::Ok(p) = gl::compile(&pr.src, dedup, false) {
+                        n += 1;
+                        let c = gl::ssa(&p);
+                        counts.inc(if c.output_gates.len() == gl::PANIC_BITS { "generated_program_circuits_with_zero_sized_result" } else { "generated_program_circuits" });
+                        distinct.insert(crate::util::fnv(format!("{dedup}{}", pr.src).as_bytes()));
+                        if let Err(e) = check_structure(c, dedup, &mut counts) {
+                            ctx.violation(&format!("generated program (dedup={dedup}): {e}"), json!({"kind": "program", "program": pr.src, "dedup": dedup, "problem": e}));
+                        }
+                    }
+                }
+                continue;
+            }
             let src = data_movement_program(&mut rng);
             for dedup in [true, false] {
                 match gl::compile(&src, dedup, false) {
